@@ -506,7 +506,7 @@ def residuals(vec1: ndarray, vec2: ndarray, angular: ndarray) -> ndarray:
 
 def vecWrapAngleNeg(angles: ndarray) -> ndarray:
     r"""Force angle into range of :math:`(-\pi, \pi]`."""
-    return (angles + const.PI) % const.TWOPI - const.PI
+    return const.PI - (const.PI - angles) % const.TWOPI
 
 
 def vecWrapAngle2Pi(angles: ndarray) -> ndarray:
